@@ -194,18 +194,20 @@ extern int mpt_axis_set(MPT_STRUCT(axis) *ax, const char *name, MPT_INTERFACE(co
 			ax->format &= ~MPT_ENUM(TransformLg);
 			return 0;
 		}
-		if (!(len = src->_vptr->convert(src, 'y', &ax->intv))) {
+		if ((len = src->_vptr->convert(src, 'y', &ax->intv)) >= 0) {
 			ax->format &= ~MPT_ENUM(TransformLg);
-			ax->intv = 0;
+			if (!len) {
+				ax->intv = def_axis.intv;
+			}
+			return 0;
 		}
-		if (len >= 0 || (len = src->_vptr->convert(src, 's', &l)) < 0 || len < 0 || !l) {
-			ax->format &= ~MPT_ENUM(TransformLg);
+		/* no interval count, only the logarithmic keyword is valid text */
+		if (src->_vptr->convert(src, 's', &l) < 0 || !l || strncasecmp(l, "log", 3)) {
+			return len;
 		}
-		else if (!strncasecmp(l, "log", 3)) {
-			ax->format |= MPT_ENUM(TransformLg);
-			ax->intv = 0;
-		}
-		return len < 0 ? len : 0;
+		ax->format |= MPT_ENUM(TransformLg);
+		ax->intv = 0;
+		return 0;
 	}
 	if (!strcasecmp(name, "exp") || !strcasecmp(name, "exponent")) {
 		if (!src || !(len = src->_vptr->convert(src, 'n', &ax->exp))) {
